@@ -34,25 +34,30 @@ macro_rules! c17_layout {
                 kani::cover!(matches!(got, DecodedKey::Unicode(_)));
             }
             /// Switching the variant on a live decoder (after a symbolic two-event history) switches to
-            /// that layout and no other, on the very next key.
+            /// that layout and no other, on the very next key: a decoder that started with another
+            /// variant and is switched to X answers like one that held X all along (both get the same
+            /// change_layout call, so whatever else change_layout does is not C17's business).
             #[kani::proof]
             pub fn c17_q_switch_variant() {
-                use crate::refmodel::{is_modifier_key, spec_next};
+                use crate::refmodel::is_modifier_key;
                 let m0 = any_mods();
                 let h = any_mode();
-                let mut d = evdec(AnyLayout::Jis109Key(Jis109Key), &m0, h);
+                let mut d1 = evdec(AnyLayout::Jis109Key(Jis109Key), &m0, h);
+                let mut d2 = evdec(AnyLayout::$ty($ty), &m0, h);
                 let (k1, s1) = (any_key(), any_state());
                 let (k2, s2) = (any_key(), any_state());
-                let _ = d.process_keyevent(KeyEvent::new(k1, s1));
-                let _ = d.process_keyevent(KeyEvent::new(k2, s2));
-                let m = spec_next(&spec_next(&m0, k1, s1), k2, s2);
-                d.change_layout(AnyLayout::$ty($ty));
+                let _ = d1.process_keyevent(KeyEvent::new(k1, s1));
+                let _ = d1.process_keyevent(KeyEvent::new(k2, s2));
+                let _ = d2.process_keyevent(KeyEvent::new(k1, s1));
+                let _ = d2.process_keyevent(KeyEvent::new(k2, s2));
+                d1.change_layout(AnyLayout::$ty($ty));
+                d2.change_layout(AnyLayout::$ty($ty));
                 let k = any_key();
                 kani::assume(!is_modifier_key(k));
-                let got = d.process_keyevent(KeyEvent::new(k, KeyState::Down));
-                let want = $ty.map_keycode(k, &m, h);
-                crate::show!("C17 switch to {} mods0={:?} ev1=({:?},{:?}) ev2=({:?},{:?}) key={:?} mode={:?} got={:?} want={:?}", stringify!($ty), m0, k1, s1, k2, s2, k, h, got, want);
-                assert!(got == Some(want), "C17: after switching the wrapper's variant the next key is not decoded by that layout");
+                let got = d1.process_keyevent(KeyEvent::new(k, KeyState::Down));
+                let want = d2.process_keyevent(KeyEvent::new(k, KeyState::Down));
+                crate::show!("C17 switch Jis109Key -> {} pressed={:?} ev1=({:?},{:?}) ev2=({:?},{:?}) key={:?} mode={:?} switched decoder={:?} decoder that always held it={:?}", stringify!($ty), m0, k1, s1, k2, s2, k, h, got, want);
+                assert!(got == want, "C17: after switching the wrapper's variant the next key is not decoded by that layout");
                 kani::cover!(k == k1 && k == k2 && s1 == KeyState::Down && s2 == KeyState::Down);
             }
             /// thorough: the same through a live EventDecoder holding the wrapper
